@@ -55,7 +55,9 @@ Record view := mkView {
   v_has_menu : bool;             (* Context::HasMenu (internal) *)
   v_sel : option N;              (* selected_index of the last segment (internal) *)
   v_menu : option menu_obs;      (* context.menu, None = not filled *)
-  v_flags : list bool            (* ascii_mode, full_shape, simplification, traditional, ascii_punct *)
+  v_flags : list bool;           (* ascii_mode, full_shape, simplification, traditional, ascii_punct *)
+  v_back_end : option nat;       (* end of the last segment (internal) *)
+  v_confirmed : bytes            (* commit text of the segments before the last one (internal) *)
 }.
 
 Inductive ret := RNone | RBool (b : bool) | RCommit (t : option bytes).
@@ -102,7 +104,9 @@ Definition view_of (s : state) : view * option err :=
           (match sg_segs (cx_comp c) with [] => None | g :: _ => Some (s_sel g) end)
           mv
           [get_option c opt_ascii_mode; get_option c opt_full_shape; get_option c opt_simplification;
-           get_option c opt_traditional; get_option c opt_ascii_punct],
+           get_option c opt_traditional; get_option c opt_ascii_punct]
+          (match sg_segs (cx_comp c) with [] => None | g :: _ => Some (s_end g) end)
+          (comp_confirmed_text (cx_comp c)),
    if composing && negb (pe_ok pe && ok2) then Some ErrSubstr
    else if negb ok3 then Some ErrBadRange else None).
 
